@@ -32,6 +32,13 @@ type schedTask struct {
 	steps  int
 }
 
+type traceEv struct {
+	dec  int
+	task string
+	n    int
+	text string
+}
+
 type poolEvent struct {
 	Seq  int
 	Task string
@@ -48,7 +55,8 @@ type Scheduler struct {
 	recRng    *RNG
 	spec      *SchedSpec
 	decisions []int
-	trace     []string // (task point) sequence projected on pool and send events
+	trace     []traceEv // (task, point) events projected on pool and send events; ordered by (decision, task, per-task index), not by arrival
+	perTask   map[string]int
 	events    int
 	pool      []poolEvent
 	seq       int
@@ -98,7 +106,11 @@ func (s *Scheduler) Yield(point, logID, detail string) {
 	}
 	s.events++
 	if strings.HasPrefix(point, "pool") || strings.HasPrefix(point, "send") || point == "run.start" {
-		s.trace = append(s.trace, id+" "+point)
+		if s.perTask == nil {
+			s.perTask = map[string]int{}
+		}
+		s.perTask[id]++
+		s.trace = append(s.trace, traceEv{len(s.decisions), id, s.perTask[id], id + " " + point})
 	}
 	if t.window || (s.window && logID == "") {
 		s.mu.Unlock()
@@ -324,7 +336,21 @@ func (e *Env) RunBatch(root string, lines []string, spec *SchedSpec, disk *SimDi
 	})
 	session.Close()
 	out.Decisions = s.decisions
-	h := sha256.Sum256([]byte(strings.Join(s.trace, "\n")))
+	sort.SliceStable(s.trace, func(i, j int) bool {
+		a, b := s.trace[i], s.trace[j]
+		if a.dec != b.dec {
+			return a.dec < b.dec
+		}
+		if a.task != b.task {
+			return logIDNum(a.task) < logIDNum(b.task)
+		}
+		return a.n < b.n
+	})
+	var tl []string
+	for _, e := range s.trace {
+		tl = append(tl, e.text)
+	}
+	h := sha256.Sum256([]byte(strings.Join(tl, "\n")))
 	out.TraceHash = hex.EncodeToString(h[:8])
 	out.Pool = s.pool
 	out.Events = s.events
